@@ -619,9 +619,9 @@ const rule = "pattern sets over literal/:name/final *name/RESTCONF lit=:name seg
 // Props lists the generated checks of C05.
 func Props() []kit.Runner {
 	return []kit.Runner{
-		kit.Prop[Case]{ID: "C05", Name: "lookup", Rule: rule, Quick: 30000, Thorough: 400000,
+		kit.Prop[Case]{ID: "C05", Name: "lookup", Rule: rule, Quick: 60000, Thorough: 1500000,
 			Gen: GenSmall, Check: Check, Classify: Classify},
-		kit.Prop[Case]{ID: "C05", Name: "large", Rule: rule + "; large tables of 50-300 (quick) / 50-5000 (thorough) patterns with shared prefixes, 10-40 paths each", Quick: 60, Thorough: 150,
+		kit.Prop[Case]{ID: "C05", Name: "large", Rule: rule + "; large tables of 50-300 (quick) / 50-5000 (thorough) patterns with shared prefixes, 10-40 paths each", Quick: 60, Thorough: 400,
 			Gen: GenLarge, Check: Check, Classify: Classify, SampleLimit: 600},
 	}
 }
